@@ -15,7 +15,7 @@ import (
 // scheduling point within the deviation bound.
 
 // "+3ns": so near that the clock (1 ns per reading) is past it before the runtime has dispatched the expiry
-var c09sets = []string{"zero", "past", "+5ms", "+10ms", "+20ms", "+400y", "+3ns"}
+var c09sets = []string{"zero", "zero(local)", "past", "+5ms", "+10ms", "+20ms", "+400y", "+3ns"}
 
 func c09scenario(steps, bound int, gaps bool, yieldOnRelease ...bool) *explore.Scenario {
 	name := fmt.Sprintf("deadline %d sets", steps)
@@ -69,6 +69,8 @@ func c09scenario(steps, bound int, gaps bool, yieldOnRelease ...bool) *explore.S
 				var t time.Time
 				switch c09sets[k] {
 				case "zero":
+				case "zero(local)":
+					t = time.Time{}.Local() // the zero instant spelled with a location: still "no deadline"
 				case "past":
 					t = zzvsched.Now().Add(-time.Millisecond)
 				case "+5ms":
@@ -225,7 +227,7 @@ func init() {
 			// bound -1 = unbounded: the happens-before state cache closes the whole interleaving space
 			return []*explore.Scenario{c09scenario(4, 2, false), c09scenario(3, -1, false), c09scenario(3, 2, true), c09scenario(2, -1, true), c09scenario(2, 3, true, true), c09scenario(3, 2, false, true), c09concurrent(3)}
 		},
-		Rule: "all scripts of Set(zero|past|+5ms|+10ms|+20ms|+400 years|+3ns) of the stated length (optionally separated by 0/7/12 ms sleeps) x every placement, within the deviation bound, of timer expiries and of the separately scheduled timer callbacks (so up to 3 dispatched-but-not-run callbacks are outstanding); Done/Err/Deadline observed after every Set, before the next one, 1 ms after the last one and at quiescence 100 ms later; one family additionally has a scheduling point after every unlock; plus two threads calling Set at the same time, followed by a last Set that must fire",
+		Rule: "all scripts of Set(zero|zero carrying a location|past|+5ms|+10ms|+20ms|+400 years|+3ns) of the stated length (optionally separated by 0/7/12 ms sleeps) x every placement, within the deviation bound, of timer expiries and of the separately scheduled timer callbacks (so up to 3 dispatched-but-not-run callbacks are outstanding); Done/Err/Deadline observed after every Set, before the next one, 1 ms after the last one and at quiescence 100 ms later; one family additionally has a scheduling point after every unlock; plus two threads calling Set at the same time, followed by a last Set that must fire",
 		Assumptions: []string{"the runtime timer is modelled: expiry dispatches the callback as a new thread whose first lock acquisition is a scheduling point; Stop reports whether the expiry had not been dispatched yet",
 			"signalled-ness is judged strictly (never before the latest Set's time); being signalled is required only at quiescence"}})
 }
